@@ -112,7 +112,10 @@ Whys(e) ==
                /\ ~(\E i \in DOMAIN out : EntropyPrinted(out[i], cnt) /\ \A j \in DOMAIN out : j # i => ~IsCharPassword(out[j], r))
               THEN "P:C17:--entropy-did-not-print-the-recipes-entropy-to-two-decimals" ELSE "ok",
             IF honourable /\ Len(out) # 1 THEN "P:C17:--entropy-printed-more-or-less-than-one-line" ELSE "ok",
-            IF \E i \in DOMAIN out : IsCharPassword(out[i], r) THEN "P:C17:a-password-was-printed-with---entropy" ELSE "ok">>
+            \* (the two-decimal rendering itself can be a string of the recipe's language - "26.96" for length 5 over digits and '.' -
+            \*  so only a line that is NOT the entropy rendering counts)
+            IF \E i \in DOMAIN out : IsCharPassword(out[i], r) /\ ~(r.len <= 64 /\ A >= 1 /\ EntropyPrinted(out[i], cnt))
+              THEN "P:C17:a-password-was-printed-with---entropy" ELSE "ok">>
         ELSE
           <<IF mustAccept /\ e.exit # 0 THEN "P:C17:recipe-the-library-can-honour-did-not-exit-0" ELSE "ok",
             IF mustRefuse /\ e.exit # 1 THEN "P:C17:recipe-the-library-refuses-did-not-exit-1" ELSE "ok",
